@@ -50,7 +50,7 @@ CHAOS_DECLS = [
 
 OPTION_POOL = [[], ["-O0"], ["-O2"], ["-O3"], ["-feof-support"], ["-fyield-support"], ["-fhook-per-state"], ["-fno-hook-global"],
                ["-fallocate-str-space-dynamic-on-demand"], ["-fdelete-string-free-memory"], ["-fstrings-as-u8"], ["-funsafe-string-indexing"],
-               ["-fstrict-done-token-generation"], ["-fuse-packed-enums"], ["-fno-remove-inaccessible-states"], ["-fno-simplify-else-conditions"],
+               ["-fstrict-done-token-generation"], ["-fuse-packed-enums"], ["-fno-remove-inaccesible-states"], ["-fno-simplify-else-conditions"],
                ["--collapsed-range-length", "1"], ["--max-shortcircuit-fallthrough", "0"], ["-fdebug-strict-program-data-errors"],
                ["-fcodepoints-in-errors"], ["-fverbose-ambig-errors"], ["-fzero-len-input-support"], ["-findirect-start-ptr"], ["-finclude-user-ptr"]]
 
